@@ -236,7 +236,9 @@ class GpRegressor:
                 """
             )
 
-        self.hyperpars = hyperpars
+        # (a copy: the regressor goes on using these values in every prediction, whatever
+        # the caller does with its own array afterwards)
+        self.hyperpars = array(hyperpars, dtype=float)
         self.mean_hyperpars = self.hyperpars[self.mean_slice]
         self.cov_hyperpars = self.hyperpars[self.cov_slice]
         self.K_xx = self.cov.build_covariance(self.cov_hyperpars) + self.sig
